@@ -448,7 +448,11 @@ def evaluate(ctx, repo, lines, params, all_hist):
         ctx.fail('correspondence', 'coverage hole (options): %s' % h, None)
     # ---- 3. input classes per item
     hists = [h for h in all_hist.values()]
-    ctab = c02_depth.class_table(hists)
+    ctab = {}
+    for item, d in c02_depth.class_table(hists).items():       # follow-up operations on a result ('item->add', ...) are counted with the item
+        m = ctab.setdefault(item.split('->')[0], {})
+        for c_, n_ in d.items():
+            m[c_] = m.get(c_, 0) + n_
     ptab = c02_depth.class_table([all_hist.get('py', {}), all_hist.get('cy', {})])       # operands of the operations of the tensor programs
     for h in all_hist.values():
         for k in [k for k in h if k.startswith('in:')]:
